@@ -39,7 +39,9 @@ Inductive c17case :=
    collection, reading its record back through a node, filling or searching it before the recorded part starts,
    reading a shard on the server that owns it. what: 1 CreateCollection, 2 GetCollection, 3 InsertPoints,
    4 SearchPoints, 5 DeleteCollection, 6 GetShardsInfo, 7 a shard read on its owner; 8: a search answer already
-   handed to its caller was modified by a later search *)
+   handed to its caller was modified by a later search; 9: with every server up and every shard request taking
+   longer than usual (but well below the RPC timeout) an update reported failed points or a search failed or
+   missed stored points; 0: that slow scenario went as the theorems say (no failed point, every point returned) *)
 | CUnexpected (what : N).
 
 (* ------------------------------------------------------------------ helpers *)
@@ -281,7 +283,7 @@ Definition verdict (c : c17case) : N :=
       if negb (ids_eqb (map fst observed) (filter (fun id => negb (mem_bytes id success)) all)) then 1102 else
       if negb (forallb (fun p => snd p =? failed_msg is_complete) observed) then 1103 else
       if resp_eqb observed (curate_failed all success is_complete) then 0 else 1204
-  | CUnexpected what => 1120 + what
+  | CUnexpected what => if what =? 0 then 0 else 1120 + what
   end.
 
 Fixpoint bad_from (i : N) (cs : list c17case) : list (N * N) :=
